@@ -42,10 +42,12 @@ def opRun (j : Json) : R Json := do
     let singleSN := ((ch.aps.map (snOf t)).eraseDups).length ≤ 1
     match p.2 with
     | none =>
-      -- skipped: allowed iff not a simple chain, or fewer than two articulation points (the property leaves that case open)
+      -- skipped: allowed iff not a simple chain, or fewer than two articulation points (the property leaves that case open), or
+      -- a chain whose scaffold nodes in reference order do not follow it (no assignment can meet the specification)
+      let refOrd := refOrdered ch (soOf t)
       (lo, outs ++ [obj [("name", js p.1), ("written", jb false), ("linear", jb linear), ("aps", jn naps),
-                         ("single_sn", jb singleSN),
-                         ("ok", jb (!linear || !singleSN || (naps < 2 && comp.length != 1)))]])
+                         ("single_sn", jb singleSN), ("ref_ordered", jb refOrd),
+                         ("ok", jb (!linear || !singleSN || !refOrd || (naps < 2 && comp.length != 1)))]])
     | some tout =>
       let tag := tagsOfFile tout
       let n : Int := if comp.length == 1 then 1 else ((ch.aps.length + ch.bubbles.length : Nat) : Int)
